@@ -138,6 +138,25 @@ def run(ctx):
     ctx.rule("R09.17", "the set of entities a trigger unsubscribes at stop is the trigger's own object: it is built (set(...), a scan result), never the very list/set the script "
              "passed as watch= (which the script may change later - the removed entities would stay subscribed for ever)", floor=3)
     own_ident_rule(ctx, program, "R09.17")
+    ctx.rule("R09.18", "legacy subsystem: the shutdown occurrence belongs to the removal of the function: TrigInfo.stop() - which runs it - is called by the function's "
+             "trigger_stop() only; the trigger task's own error path releases its subscriptions without it (else a function that is still defined gets a shutdown run when its "
+             "task dies, and a second one at the real removal)", floor=1)
+    stop_sites = []
+    for u in program.functions():
+        if u.rel.startswith("stubs/"):
+            continue
+        for n in body_walk(u.node):
+            if isinstance(n, ast.Call) and isinstance(n.func, ast.Attribute) and n.func.attr == "stop" and not n.args:
+                recv = norm(n.func.value)
+                if (u.cls == "TrigInfo" and recv == "self") or (u.uid.startswith("eval.py::EvalFunc.") and recv in ("trigger", "trig")):
+                    stop_sites.append((u.uid, n))
+    if not any(uid == "eval.py::EvalFunc.trigger_stop" for uid, _ in stop_sites):
+        raise AnalysisError("R09.18: EvalFunc.trigger_stop no longer stops its TrigInfo objects")
+    for uid, n in stop_sites:
+        ctx.check(uid == "eval.py::EvalFunc.trigger_stop", "R09.18", uid, f"`{short(n)}` is the removal path",
+                  msg=f"{uid}: `{short(n)}` runs TrigInfo.stop() - and with it the @time_trigger('shutdown') occurrence - outside the removal of the function", key=f"TrigInfo.stop caller {uid}",
+                  node=n, rel=uid.split("::")[0])
+
     ctx.rule("R09.14", "new subsystem: the stop of a running manager whose function variable died begins inside the finaliser (eagerly started task), not in a later loop iteration", floor=1)
     eager_stop_rule(ctx, program, "R09.14")
 
